@@ -57,7 +57,21 @@ func ruleS6(p *Prog, r *Report) {
 		if !isCommitEntry(top) || containsFold(top.Name(), "nondeterministic") {
 			continue
 		}
-		eachInstrDeep(top, func(fn *ssa.Function, in ssa.Instruction) {
+		// the entry and the private helpers it hands (part of) the apply phase to
+		scope := []*ssa.Function{top}
+		inScope := map[*ssa.Function]bool{top: true}
+		for i := 0; i < len(scope) && i < 8; i++ {
+			for _, g := range p.calleesDeep(scope[i]) {
+				if g.Pkg == p.RootSSA && !inScope[g] && recvName(g) == storageT && g.Object() != nil && !g.Object().Exported() && len(g.Blocks) > 0 {
+					if _, _, isW := p.regWriteWrapper(g); isW {
+						continue // a single-id write helper is seen as the write at its call site
+					}
+					inScope[g] = true
+					scope = append(scope, g)
+				}
+			}
+		}
+		visit := func(fn *ssa.Function, in ssa.Instruction) {
 			_, key, _, ok := p.registerWrite(in)
 			if !ok {
 				return
@@ -84,6 +98,29 @@ func ruleS6(p *Prog, r *Report) {
 				return
 			}
 			src := canon(ia.X)
+			// a helper that receives the key slice: the slice its caller in this commit hands over
+			for d := 0; d < 3; d++ {
+				prm, isPrm := src.(*ssa.Parameter)
+				if !isPrm {
+					break
+				}
+				idx := -1
+				for i, q := range prm.Parent().Params {
+					if q == prm {
+						idx = i
+					}
+				}
+				var arg ssa.Value
+				for _, cs := range p.CallersOf(prm.Parent()) {
+					if inScope[TopLevel(cs.Caller)] && idx >= 0 && idx < len(cs.Instr.Common().Args) {
+						arg = cs.Instr.Common().Args[idx]
+					}
+				}
+				if arg == nil {
+					break
+				}
+				src = canon(arg)
+			}
 			call, ok := src.(*ssa.Call)
 			if !ok || call.Call.StaticCallee() == nil || call.Call.StaticCallee().Pkg != p.RootSSA {
 				r.Bad(R, cons, p.InstrPos(in), "the key slice driving register writes is not the result of a collector function of this package")
@@ -163,7 +200,10 @@ func ruleS6(p *Prog, r *Report) {
 			} else {
 				r.Bad(R, cc, p.Pos(cf.Pos()), why)
 			}
-		})
+		}
+		for _, sf := range scope {
+			eachInstrDeep(sf, visit)
+		}
 	}
 	// the id components' integer views must be big-endian (bytewise order = numeric order)
 	for _, name := range []string{"AddressAsUint64", "IndexAsUint64"} {
